@@ -403,6 +403,71 @@ func seeds() []Case {
 	return out
 }
 
+// twoLateNamedTargets: two pools whose targets are written as the same host name with different
+// ports; both are still down while the config is decoded (so nothing can be resolved beforehand)
+// and up before the first shot. Every request must arrive at its own pool's target.
+func twoLateNamedTargets(res *vkit.Result, gunType string) {
+	ports := []int{vkit.FreePort(), vkit.FreePort()}
+	var pools []any
+	var paths []string
+	for i, port := range ports {
+		var b strings.Builder
+		for k := 0; k < 6; k++ {
+			fmt.Fprintf(&b, "/pool%d/e%d?vid=%d\n", i, k, k)
+		}
+		path := vkit.WriteMem([]byte(b.String()))
+		paths = append(paths, path)
+		pools = append(pools, map[string]any{
+			"id": fmt.Sprintf("p%d", i), "ammo": map[string]any{"type": "uri", "file": path, "passes": 3}, "result": map[string]any{"type": "discard"},
+			"gun": map[string]any{"type": gunType, "target": fmt.Sprintf("localhost:%d", port)},
+			"rps": map[string]any{"type": "const", "ops": 300, "duration": "60s"}, "startup": map[string]any{"type": "once", "times": 2}})
+	}
+	defer func() {
+		for _, p := range paths {
+			vkit.RemoveMem(p)
+		}
+	}()
+	c := map[string]any{"layer": "two pools, targets localhost:A and localhost:B, both down while the config is decoded", "gun": gunType}
+	ec, err := vkit.DecodePools(map[string]any{"pools": pools})
+	if err != nil {
+		res.Violate("C09/late-named-targets/rejected", fmt.Sprintf("valid config rejected: %v", err), c)
+		return
+	}
+	var tgts []*vkit.HTTPTarget
+	for _, port := range ports {
+		t, err := vkit.NewHTTPTargetAt(fmt.Sprintf("127.0.0.1:%d", port), false)
+		if err != nil {
+			res.Inconclusive(false, "cannot start a target on a port that was free a moment ago: %v", err)
+			return
+		}
+		defer t.Close()
+		tgts = append(tgts, t)
+	}
+	for i := range ec.Pools {
+		ec.Pools[i].Aggregator = &vkit.MockAggregator{}
+	}
+	rr := vkit.RunEngine(ec, nil, 60*time.Second)
+	if rr.Hang || rr.Err != nil {
+		res.Violate("C09/late-named-targets/run-error", fmt.Sprintf("run ended with %v (hang %v)", rr.Err, rr.Hang), c)
+		return
+	}
+	for i, t := range tgts {
+		own, foreign := 0, ""
+		for _, r := range t.Requests() {
+			if strings.HasPrefix(r.URI, fmt.Sprintf("/pool%d/", i)) {
+				own++
+			} else if foreign == "" {
+				foreign = r.URI
+			}
+		}
+		if foreign != "" || own != 18 {
+			res.Violate("C09/late-named-targets/wrong-target", fmt.Sprintf("target %d (localhost:%d) received %d of its pool's 18 requests and e.g. %q of the other pool", i, ports[i], own, foreign), c)
+		}
+		res.Count("requests_matched", int64(own))
+	}
+	res.Eval(vkit.JSON(c), true)
+}
+
 func main() {
 	vkit.Fs()
 	res := vkit.NewResult("pools decoded from config maps: ammo in uri/uripost/raw/http-json (1–6 entries, unique ?vid markers, header sets incl. Host) × `headers` option lists colliding with ammo headers in the same and in different letter case (incl. Host) × gun {http, connect, http2} × answlog (filter all) / httptrace dump+trace / shared-client × ssl × disable-keep-alives × 1–11 instances × 1–4 passes × preload on/off, fired at an in-process recording HTTP(S) target that also serves CONNECT tunnels and answers in six shapes (fixed length, empty, chunked, long without declared length, 204, 404); distinct = distinct (file, option list, gun settings); non-trivial = ≥ 2 requests received")
@@ -427,6 +492,8 @@ func main() {
 		}
 		runCase(res, c)
 	}
+	twoLateNamedTargets(res, "http")
+	twoLateNamedTargets(res, "connect")
 	if res.Counter("requests_matched") < 100 || res.Counter("cases_with_config_headers") < 10 || res.Counter("requests_over_http2") < 10 {
 		res.Inconclusive(true, "too few requests matched")
 	}
